@@ -29,9 +29,25 @@ pub(crate) mod clock {
         at_ms(unsafe { NOW_MS })
     }
 
-    /// stub for std::time::Instant::elapsed
+    /// stub for std::time::Instant::elapsed. Computed by hand from the two (secs, nanos) pairs:
+    /// std's `duration_since` goes through the RECURSIVE `Timespec::sub_timespec`, which CBMC unwinds
+    /// without bound when the comparison is symbolic (measured: a three-line harness did not finish
+    /// in 20 minutes). Instants in the future of the ghost clock saturate to zero, as std does.
     pub fn mock_elapsed(this: &Instant) -> Duration {
-        mock_now().duration_since(*this)
+        assert!(core::mem::size_of::<Instant>() == core::mem::size_of::<RawInstant>());
+        let t: RawInstant = unsafe { core::mem::transmute_copy(this) };
+        let now = now_ms();
+        let ns = (now / 1000) as i64;
+        let nn = ((now % 1000) * 1_000_000) as u32;
+        if ns > t.secs || (ns == t.secs && nn >= t.nanos) {
+            if nn >= t.nanos {
+                Duration::new((ns - t.secs) as u64, nn - t.nanos)
+            } else {
+                Duration::new((ns - t.secs - 1) as u64, nn + 1_000_000_000 - t.nanos)
+            }
+        } else {
+            Duration::new(0, 0)
+        }
     }
 
     pub fn set_now_ms(ms: u64) {
